@@ -710,7 +710,7 @@ class LazyIndexMap(Encoding):
         return self._data.gather_nd(self._to_base_indices(indices))
 
     def get_value(self, index):
-        return self._data[tuple(self._to_base_indices(index))]
+        return self.gather_nd(np.reshape(index, (1, -1)))[0]
 
 
 class FlattenedEncoding(LazyIndexMap):
@@ -851,15 +851,15 @@ class TransposedEncoding(LazyIndexMap):
         return tuple(shape[p] for p in self._perm)
 
     def _to_base_indices(self, indices):
-        return np.take(indices, self._perm, axis=-1)
+        return np.take(indices, self._inv_perm, axis=-1)
 
     def _from_base_indices(self, base_indices):
         try:
-            return np.take(base_indices, self._inv_perm, axis=-1)
+            return np.take(base_indices, self._perm, axis=-1)
         except TypeError:
             # windows sometimes tries to use wrong dtypes
             return np.take(
-                base_indices.astype(np.int64), self._inv_perm.astype(np.int64), axis=-1
+                base_indices.astype(np.int64), self._perm.astype(np.int64), axis=-1
             )
 
     @property
@@ -867,13 +867,11 @@ class TransposedEncoding(LazyIndexMap):
         return self._data.dense.transpose(self._perm)
 
     def gather(self, indices):
-        return self._data.gather(self._base_indices(indices))
+        return self._data.gather(self._to_base_indices(indices))
 
     def mask(self, mask):
-        return self._data.mask(mask.transpose(self._inv_perm)).transpose(self._perm)
-
-    def get_value(self, index):
-        return self._data[tuple(self._base_indices(index))]
+        mask = mask.dense if isinstance(mask, Encoding) else mask
+        return self.gather_nd(np.column_stack(np.where(mask)))
 
     @property
     def data(self):
